@@ -334,6 +334,18 @@ class NamespaceClass(Namespace[symtable.Class]):
             if name in comp.target_names:
                 return Name(id=name, ctx=Load())
 
+        for comp in self.comp_stack:
+            if isinstance(comp, oneliner.expr_transform.PendingLambda):
+                # the names of the class body are not visible inside a lambda
+                if name in self.outer_nonlocal_map:
+                    outer = self.outer_nonlocal_map[name]
+                    return Subscript(
+                        value=outer.nonlocal_dict_expr,
+                        slice=Constant(value=name),
+                        ctx=Load(),
+                    )
+                return self.get_load_global_name(name)
+
         if name in self.globals_used_in_comp:
             return Name(id=name, ctx=Load())
 
@@ -429,7 +441,6 @@ def generate_nsp(symt: symtable.SymbolTable, configs: Configs):
                     symtable.Function, child_symt
                 )  # making type-checker happy
                 if child_symt.get_name() == "lambda":
-                    update_globals_from_lambda_or_comp(child_symt, generate_stack)
                     continue
                 if sys.version_info < (3, 12):
                     if _comp_check(child_symt):
